@@ -5,7 +5,7 @@ import json, os, subprocess, sys, glob, re, time
 VERIF = os.path.abspath(os.environ.get('VERIF_DIR', '/verif'))     # a vp-run snapshot may stand in for /verif
 ROOT = VERIF + '/seeded'
 WT = os.environ.get('SEED_WT', '/tmp/wt/seedm')
-OUT = '/tmp/wt/seedm-out'
+OUT = WT + '-out'
 REL = {  # file -> checks whose contracts cover functions of that file
     'simulation.py': ['C01', 'C07', 'C14', 'C15'],
     'resource_manager.py': ['C09', 'C10', 'C11', 'C15', 'C03'],
